@@ -88,6 +88,7 @@ func main() {
 	writeIfChanged(filepath.Join(*out, "RWMutex.lean"), genRWMutex(*repo))
 	writeIfChanged(filepath.Join(*out, "Facts.lean"), genFacts(*repo))
 	writeIfChanged(filepath.Join(*out, "Ints.lean"), genInts(*repo))
+	writeIfChanged(filepath.Join(*out, "Skel.lean"), genSkeletons(*repo))
 }
 
 // ---------------------------------------------------------------------------
